@@ -9,12 +9,10 @@ From HV Require Model.BT2 Proofs.BT2 Model.FHeap Proofs.FHeap.
 Section Main.
 Variable P : params.
 Variable enc : attr -> bytes.
-Variable dec : bytes -> option attr.
 Variables rebalance delay : bool.
 Variable pick : FHeap.heap -> bytes -> nat.
 Hypothesis PM : params_match P.
 Hypothesis enc_len : forall a sz, encode_attr a = EncOk sz -> FHeap.len (enc a) = sz.
-Hypothesis dec_enc : forall a sz, encode_attr a = EncOk sz -> dec (enc a) = Some a.
 
 Notation HSim := (HSim enc).
 Notation jh := BT2.jenkins.
@@ -317,6 +315,38 @@ Proof.
     destruct (run jh P st1 r) as [st2 xs]. cbn [fst snd] in *. exists cst2. split; [reflexivity | exact S2].
 Qed.
 
+Lemma read_msgs_recs_sim f hp : (forall id a, id_live hp id a -> FHeap.core_read f 2048 (id7 id) = FHeap.Ok (enc a)) ->
+  forall ix l, Forall2 (fun rc a => id_live hp (snd rc) a) ix l ->
+  c_read_msgs_recs f 2048 (map conc_rec ix) = Some (map enc l).
+Proof.
+  intros Hcr ix l F. induction F as [|rc a ix l L F IH]; [reflexivity|].
+  cbn [map c_read_msgs_recs conc_rec snd]. rewrite (Hcr _ _ L), IH. reflexivity.
+Qed.
+
+Lemma read_msgs_sim cst st : Sim cst st -> c_read_msgs enc cst = option_map (map enc) (read_attrs st).
+Proof.
+  intro S. destruct cst as [l|bf bn ba hfs ha]; destruct st as [l'|ix hp|]; cbn [Sim] in S; try contradiction.
+  - subst. reflexivity.
+  - destruct S as (-> & Hz & s & h & Hlo & HI & HW & Hl & Hld & HH & Hcr & HD).
+    cbn [c_read_msgs read_attrs]. rewrite Hlo. destruct HI as [E _]. rewrite E.
+    destruct (dinv_read ix hp (proj1 HD)) as (l & R & F2). rewrite R. cbn [option_map].
+    eapply read_msgs_recs_sim; [exact Hcr | exact F2].
+Qed.
+
+(* ------------------------------------------------------------------ the composed theorems *)
+
+Theorem compose_run_msgs h :
+  exists cst, c_run cinit h = (cst, snd (run jh P init h)) /\ Sim cst (fst (run jh P init h)) /\
+              c_read_msgs enc cst = option_map (map enc) (read_attrs (fst (run jh P init h))).
+Proof.
+  destruct (run_sim h cinit init eq_refl) as (cst & E & S). exists cst. split; [exact E|]. split; [exact S|].
+  apply read_msgs_sim; exact S.
+Qed.
+
+Section Parsed.
+Variable dec : bytes -> option attr.
+Hypothesis dec_enc : forall a sz, encode_attr a = EncOk sz -> dec (enc a) = Some a.
+
 Lemma read_recs_sim f hp : (forall id a, id_live hp id a -> FHeap.core_read f 2048 (id7 id) = FHeap.Ok (enc a)) ->
   (forall id a, id_live hp id a -> exists sz, encode_attr a = EncOk sz) ->
   forall ix l, Forall2 (fun rc a => id_live hp (snd rc) a) ix l ->
@@ -338,14 +368,77 @@ Proof.
     intros id a L. eapply id_live_enc; eassumption.
 Qed.
 
-(* ------------------------------------------------------------------ the composed theorems *)
-
 Theorem compose_run h :
   exists cst, c_run cinit h = (cst, snd (run jh P init h)) /\ Sim cst (fst (run jh P init h)) /\
-              c_read_attrs dec cst = read_attrs (fst (run jh P init h)).
+              c_read_attrs dec cst = read_attrs (fst (run jh P init h)) /\
+              c_read_msgs enc cst = option_map (map enc) (read_attrs (fst (run jh P init h))).
 Proof.
   destruct (run_sim h cinit init eq_refl) as (cst & E & S). exists cst. split; [exact E|]. split; [exact S|].
-  apply read_sim. exact S.
+  split; [apply read_sim; exact S | apply read_msgs_sim; exact S].
 Qed.
 
+End Parsed.
+
 End Main.
+
+(* ------------------------------------------------------------------ consequences for the composed model *)
+From HV Require Import Proofs.AttrStep Proofs.Attr.
+
+Lemma params_match_go base : params_match (go_params base).
+Proof. repeat split. Qed.
+
+Lemma params_match_hcap P : params_match P -> p_hcap P <= 65536.
+Proof. intros (_ & Ph & _). rewrite Ph, block_cap. lia. Qed.
+
+(* answers and listing of the composed model = answers and listing of the abstract model, every history *)
+Theorem compose_simulation P enc rebalance delay pick : params_match P ->
+  (forall a sz, encode_attr a = EncOk sz -> FHeap.len (enc a) = sz) ->
+  forall h cst rs, c_run P enc rebalance delay pick cinit h = (cst, rs) ->
+  rs = snd (run BT2.jenkins P init h) /\
+  c_read_msgs enc cst = option_map (map enc) (read_attrs (fst (run BT2.jenkins P init h))).
+Proof.
+  intros PM EL h cst rs Hr.
+  destruct (compose_run_msgs P enc rebalance delay pick PM EL h) as (cst' & E & _ & R).
+  rewrite E in Hr. inversion Hr; subst. split; [reflexivity | exact R].
+Qed.
+
+(* hence the composed model refines the finite map (C02_refines_map for the composed model) *)
+Theorem compose_refines_map P enc rebalance delay pick : params_match P ->
+  (forall a sz, encode_attr a = EncOk sz -> FHeap.len (enc a) = sz) ->
+  forall h cst rs, NoHashCollision BT2.jenkins (names h) ->
+  c_run P enc rebalance delay pick cinit h = (cst, rs) ->
+  exists l, c_read_msgs enc cst = Some (map enc l) /\ NoDup (map aname l) /\
+            (forall n, attr_get l n = sp_get (run_spec [] h rs) n) /\ results_ok [] h rs.
+Proof.
+  intros PM EL h cst rs NC Hr. destruct (compose_simulation P enc rebalance delay pick PM EL h cst rs Hr) as [-> R].
+  destruct (run BT2.jenkins P init h) as [st rs0] eqn:Ea. cbn [fst snd] in *.
+  destruct PM as (Pi & Ph & Pm & Po).
+  destruct (refines_map_repaired BT2.jenkins P Po h st rs0) as (l & Hl & ND & G & RO); try assumption.
+  { rewrite Ph, block_cap. lia. }
+  exists l. rewrite R, Hl. repeat split; assumption.
+Qed.
+
+Theorem compose_refines_map_go base enc rebalance delay pick :
+  (forall a sz, encode_attr a = EncOk sz -> FHeap.len (enc a) = sz) ->
+  forall h cst rs, NoHashCollision BT2.jenkins (names h) ->
+  c_run (go_params base) enc rebalance delay pick cinit h = (cst, rs) ->
+  exists l, c_read_msgs enc cst = Some (map enc l) /\ NoDup (map aname l) /\
+            (forall n, attr_get l n = sp_get (run_spec [] h rs) n) /\ results_ok [] h rs.
+Proof. intros. eapply compose_refines_map; eauto using params_match_go. Qed.
+
+(* with ParseAttributeMessage applied by the reader: the parsed listing, under the round trip of the message codec *)
+Theorem compose_simulation_parsed P enc dec rebalance delay pick : params_match P ->
+  (forall a sz, encode_attr a = EncOk sz -> FHeap.len (enc a) = sz) ->
+  (forall a sz, encode_attr a = EncOk sz -> dec (enc a) = Some a) ->
+  forall h cst rs, c_run P enc rebalance delay pick cinit h = (cst, rs) ->
+  rs = snd (run BT2.jenkins P init h) /\ c_read_attrs dec cst = read_attrs (fst (run BT2.jenkins P init h)).
+Proof.
+  intros PM EL DE h cst rs Hr.
+  destruct (compose_run P enc rebalance delay pick PM EL dec DE h) as (cst' & E & _ & R & _).
+  rewrite E in Hr. inversion Hr; subst. split; [reflexivity | exact R].
+Qed.
+
+(* the hypothesis on the encoder is satisfiable (any encoder with the right lengths; the real one: C11) *)
+Definition enc_zeros (a : attr) : bytes := FHeap.zeros (msg_size a).
+Lemma enc_zeros_len : forall a sz, encode_attr a = EncOk sz -> FHeap.len (enc_zeros a) = sz.
+Proof. intros a sz H. unfold enc_zeros. rewrite FHeap.len_zeros. apply msg_size_enc. exact H. Qed.
